@@ -405,6 +405,36 @@ def _uwiden(frm, to):
     return flo == 0 and fhi <= thi
 
 
+def _ubound(t):
+    """a static upper bound of an unsigned integer term (from the widths of what it is built from), or None"""
+    if not isinstance(t, tuple) or not t:
+        return None
+    if is_c(t) and isinstance(t[1], int) and t[1] >= 0:
+        return t[1]
+    if t[0] == "cast" and len(t) == 4 and t[2] in INT_TYS and t[3] in INT_TYS and ty_range(t[2])[0] == 0:
+        inner = _ubound(t[1])
+        cap = min(ty_range(t[2])[1], ty_range(t[3])[1]) if ty_range(t[3])[0] == 0 else ty_range(t[2])[1]
+        return min(inner, cap) if inner is not None else cap
+    if t[0] == "bin" and len(t) == 5 and t[4] in INT_TYS and ty_range(t[4])[0] == 0:
+        a, b = _ubound(t[2]), _ubound(t[3])
+        hi = ty_range(t[4])[1]
+        if t[1] in ("Div",) and is_c(t[3]) and isinstance(t[3][1], int) and t[3][1] > 0:
+            return (a if a is not None else hi) // t[3][1]
+        if t[1] == "Shr" and is_c(t[3]) and isinstance(t[3][1], int) and 0 <= t[3][1] < 128:
+            return (a if a is not None else hi) >> t[3][1]
+        if t[1] == "BitAnd":
+            c = [x for x in (a, b) if x is not None]
+            return min(c) if c else hi
+        if t[1] in ("Mul", "Add") and a is not None and b is not None:
+            return min(a * b if t[1] == "Mul" else a + b, hi)
+        if t[1] == "Rem" and b is not None and b > 0:
+            return b - 1
+        return hi
+    if t[0] in ("fld", "p", "vfld"):
+        return None
+    return None
+
+
 def norm_arith(t):
     """canonical form for comparing arithmetic written in different but equivalent ways: operands of commutative
     operators are ordered; an unsigned right shift by a constant is the division by that power of two; value-preserving
@@ -427,6 +457,11 @@ def norm_arith(t):
                 return norm_arith(("cast", a[1], a[2], to))
             if a[0] == "bin" and len(a) == 5 and a[1] in ("Div", "BitAnd", "Rem") and is_c(a[3]) and isinstance(a[3][1], int) and a[3][1] >= 0 and a[4] == frm:
                 return norm_arith(("bin", a[1], ("cast", a[2], frm, to), C(a[3][1], to), to))
+            if a[0] == "bin" and len(a) == 5 and a[1] in ("Mul", "Add") and a[4] == frm:
+                # the narrower product/sum provably fits (bounds from the operands' own widths): widening commutes with it
+                x, y = _ubound(a[2]), _ubound(a[3])
+                if x is not None and y is not None and (x * y if a[1] == "Mul" else x + y) <= ty_range(frm)[1]:
+                    return norm_arith(("bin", a[1], ("cast", a[2], frm, to), ("cast", a[3], frm, to), to))
         return t
     return t
 
